@@ -169,7 +169,10 @@ def compose(n, fmt, path, opts):
 def concrete_opts(n, opts):
     o = dict(opts)
     if o.get('definition_list') == ['__TOP__']:
-        o['definition_list'] = [n.top_instance.reference.name]
+        if n.top_instance is not None:
+            o['definition_list'] = [n.top_instance.reference.name]
+        else:
+            o['definition_list'] = [next(d.name for lib in n.libraries for d in lib.definitions if d.children or d.ports)]
     return o
 
 
@@ -235,7 +238,12 @@ def netlists(rng, tier, tmpdir):
                 n2 = sdn.parse(p)
                 n2.name = None
                 yield (name + '-unnamed', fmt, decorate(n2, rng))
-    ngen = 12 if tier == 'quick' else 150
+    # hand-built hierarchies with shared dependencies (a cell is used directly and through other cells), cells
+    # listed in an arbitrary order; for Verilog some never get a top instance at all
+    for k in range(6 if tier == 'quick' else 40):
+        fmt = 'edif' if k % 2 == 0 else 'verilog'
+        yield ('chains-%d' % k, fmt, chains_netlist(rng, with_top=(fmt == 'edif' or k % 4 == 1)))
+    ngen = 24 if tier == 'quick' else 150
     for k in range(ngen):
         fmt = ('edif', 'verilog', 'eblif')[k % 3] if k % 4 else rng.choice(['edif', 'verilog'])
         # EDIF needs acyclic library dependencies (the property's quantifier): one library
@@ -245,10 +253,69 @@ def netlists(rng, tier, tmpdir):
         if rng.random() < 0.7:
             decorate(n, rng)
         label = 'netgen-%d' % k
+        if fmt == 'edif' and rng.random() < 0.7:
+            # the cells are listed in an arbitrary order (not dependencies-first) before the EDIF writer sees them:
+            # its re-ordering is a documented side effect, but it must be the same every time
+            for lib in n.libraries:
+                order = list(lib.definitions)
+                rng.shuffle(order)
+                lib.definitions = order
+            label += '-shuffled'
+        if fmt == 'verilog' and rng.random() < 0.3:
+            # a netlist without a top instance is still written (in library order)
+            n.top_instance = None
+            label += '-notop'
         if fmt == 'eblif' and k % 2 == 1:      # unnamed netlists are composable in EBLIF only
             n.name = None
             label += '-unnamed'
         yield (label, fmt, n)
+
+
+def chains_netlist(rng, with_top=True):
+    """one library; a few chains c0 -> c1 -> ... -> leaf in which every cell also instantiates the leaf and some cell
+    further down the chain directly (diamonds); a top cell instantiating every cell of every chain; the list of
+    cells shuffled (for Verilog without a top: built bottom-up, never given a top instance)"""
+    n = sdn.Netlist(name='chains')
+    lib = n.create_library(name='work')
+    leaf = lib.create_definition(name='LEAF')
+    lp = leaf.create_port(name='i', pins=1)
+    lp.direction = sdn.IN
+    cells = []
+    for c in range(rng.randint(2, 4)):
+        chain = []
+        prev = leaf
+        for j in range(rng.randint(4, 8)):
+            d = lib.create_definition(name='c%d_%d' % (c, j))
+            p = d.create_port(name='i', pins=1)
+            p.direction = sdn.IN
+            cab = d.create_cable(name='w', wires=1)
+            cab.wires[0].connect_pin(p.pins[0])
+            x = d.create_child(name='next', reference=prev)
+            cab.wires[0].connect_pin(x.pins[next(iter(prev.ports)).pins[0]])
+            y = d.create_child(name='direct_leaf', reference=leaf)
+            cab.wires[0].connect_pin(y.pins[lp.pins[0]])
+            if chain and rng.random() < 0.7:
+                far = rng.choice(chain)
+                z = d.create_child(name='direct_far', reference=far)
+                cab.wires[0].connect_pin(z.pins[next(iter(far.ports)).pins[0]])
+            chain.append(d)
+            prev = d
+        cells += chain
+    top = lib.create_definition(name='top')
+    tp = top.create_port(name='i', pins=1)
+    tp.direction = sdn.IN
+    tc = top.create_cable(name='w', wires=1)
+    tc.wires[0].connect_pin(tp.pins[0])
+    for j, d in enumerate(cells):
+        x = top.create_child(name='u%d' % j, reference=d)
+        tc.wires[0].connect_pin(x.pins[next(iter(d.ports)).pins[0]])
+    if with_top:
+        n.top_instance = top
+        n.top_instance.name = 'top'
+        order = list(lib.definitions)
+        rng.shuffle(order)
+        lib.definitions = order
+    return n
 
 
 def check_one(label, fmt, n, opts, tmpdir, rng):
